@@ -159,6 +159,42 @@ Definition dir_chk (fuel : nat) (d : node) : bool :=
   | _ => false
   end.
 
+(* the shapes of the command lists, over the checks of their parts *)
+Section Shapes.
+Variable ek sk : node -> bool.
+Fixpoint if_shape (cs : list node) : bool :=
+  match cs with
+  | [] => true
+  | NIfCond _ c bd :: r =>
+      match c with
+      | Some x => ek x
+      | None => match r with [] => true | _ => false end
+      end && sk bd && if_shape r
+  | _ :: _ => false
+  end.
+Definition if_head (cs : list node) : bool := match cs with NIfCond _ (Some _) _ :: _ => true | _ => false end.
+Definition case_shape (c : node) : bool :=
+  match c with
+  | NSwitchCase _ vs bd => forallb ek vs && sk bd
+  | _ => false
+  end.
+Definition is_default_case (c : node) : bool := match c with NSwitchCase _ [] _ => true | _ => false end.
+Definition param_shape (p : node) : bool :=
+  match p with
+  | NParamValue _ key v => ident_ok key && ek v
+  | NParamContent _ key c => ident_ok key && sk c
+  | _ => false
+  end.
+Definition for_list_shape (lst : node) : bool :=
+  match lst with
+  | NFunc _ fname args =>
+      if bstr_eqb fname jn_range
+      then match args with [_] | [_; _] | [_; _; _] => forallb ek args | _ => false end
+      else ek lst
+  | _ => ek lst
+  end.
+End Shapes.
+
 Fixpoint stmt_chk (fuel : nat) (n : node) : bool :=
   match fuel with
   | O => false
@@ -169,48 +205,18 @@ Fixpoint stmt_chk (fuel : nat) (n : node) : bool :=
       | NPrint _ arg dirs => expr_okb f arg && forallb (dir_chk f) dirs && operand_text (directive_js n_escapeHtml)
       | NCss _ e _ => match e with Some x => expr_okb f x | None => true end
       | NLog _ bd => stmt_chk f bd
-      | NIf _ conds =>
-          match conds with
-          | NIfCond _ (Some _) _ :: _ =>
-              (fix go (cs : list node) : bool :=
-                 match cs with
-                 | [] => true
-                 | NIfCond _ c bd :: r =>
-                     match c with
-                     | Some x => expr_okb f x
-                     | None => match r with [] => true | _ => false end
-                     end && stmt_chk f bd && go r
-                 | _ :: _ => false
-                 end) conds
-          | _ => false
-          end
+      | NIf _ conds => if_head conds && if_shape (expr_okb f) (stmt_chk f) conds
       | NFor _ var lst body ie =>
-          ident_ok var
-          && match lst with
-             | NFunc _ fname args =>
-                 if bstr_eqb fname jn_range
-                 then match args with [_] | [_; _] | [_; _; _] => forallb (expr_okb f) args | _ => false end
-                 else expr_okb f lst
-             | _ => expr_okb f lst
-             end
-          && stmt_chk f body
+          ident_ok var && for_list_shape (expr_okb f) lst && stmt_chk f body
           && match ie with Some x => stmt_chk f x | None => true end
       | NSwitch _ v cases =>
-          expr_okb f v
-          && forallb (fun c => match c with
-                               | NSwitchCase _ vs bd => forallb (expr_okb f) vs && stmt_chk f bd
-                               | _ => false
-                               end) cases
-          && (List.length (filter (fun c => match c with NSwitchCase _ [] _ => true | _ => false end) cases) <=? 1)%nat
+          expr_okb f v && forallb (case_shape (expr_okb f) (stmt_chk f)) cases
+          && (List.length (filter is_default_case cases) <=? 1)%nat
       | NCall _ name _ data params =>
           dname_okb (fmt_bytes (fmt_call_name fmt) name)
           && imp_ok (fmt_chunks (fmt_call_text fmt) name)
           && match data with Some d => expr_okb f d | None => true end
-          && forallb (fun p => match p with
-                               | NParamValue _ key v => ident_ok key && expr_okb f v
-                               | NParamContent _ key c => ident_ok key && stmt_chk f c
-                               | _ => false
-                               end) params
+          && forallb (param_shape (expr_okb f) (stmt_chk f)) params
       | NLetValue _ name e => ident_ok name && expr_okb f e
       | NLetContent _ name bd => ident_ok name && stmt_chk f bd
       | _ => false
